@@ -1,5 +1,6 @@
 import IblVerif.Model.Proto
 import IblVerif.Model.Geometry
+import IblVerif.Model.GeomStagesC08
 open IblVerif IblVerif.Proto IblVerif.Geometry
 
 /-! Line protocol for C08 (parsing / printing only; every answer is computed by `IblVerif.Geometry`). -/
@@ -50,6 +51,17 @@ def step (t : List String) : String :=
       | .ok none => "none"
       | .ok (some (g, inds)) => "ok " ++ showGeom g ++ " inds=" ++ showList inds
     | _, _, _ => "bad-op"
+  | ["geomprog", sm, gm, te, pt, ps, sh, srt] =>   -- the same through the statement program (GeomStages.run ∘ stages)
+    match meta? sm gm te pt ps sh, bool? srt with
+    | some m, some srt =>
+      match mapChannels m.shankMap m.geomMap with
+      | .error e => showErr e
+      | .ok none => "nomap"
+      | .ok (some cm) =>
+        match GeomStages.run cm m.major m.np24Shank (GeomStages.stages cm.enc (decide (m.major = some .v1)) srt) with
+        | .error e => showErr e
+        | .ok (g, inds) => "ok " ++ showGeom g ++ " inds=" ++ showList inds
+    | _, _ => "bad-op"
   | ["geomsplit", sm, gm, te, pt, ps, sh, srt, s] =>   -- split_trace_header(geometry_from_meta(...), s)
     match meta? sm gm te pt ps sh, bool? srt, int? s with
     | some m, some srt, some s =>
